@@ -15,7 +15,9 @@ LEVEL = ("Coq theorems over the executable model of _rewrite_captured_vars / che
          "eval later (rewrite ce e) = eval (vals ce ++ later) e (both directions) whenever the names occurring in e are bound "
          "in the snapshot to int/bool/str/None literals or not at all and no attribute is folded; capture_then_resolve_partial "
          "(freeze + resolve of called lambdas, one direction); capture_respects_scope (snapshot values of names on the ignore "
-         "stack are irrelevant, all trees; stack = erasure); capture_gate (check_ast accepts exactly legal constant kinds - "
+         "stack are irrelevant, all trees; stack = erasure); capture_defaults_in_enclosing_scope (FC7/FC8: every bound name of a "
+         "lambda with defaults / other parameter kinds is pushed, its default values are rewritten in the enclosing scope); "
+         "capture_gate (check_ast accepts exactly legal constant kinds - "
          "generated table - else ValueError; the pipeline never returns an illegal constant).  Model tied to the code by exact "
          "comparison on generated Python programs incl. the same callable passed twice around a rebinding.")
 TRUSTED = ["Coq 8.16.1 kernel (coqc); no axioms (Print Assumptions: closed under the global context)",
@@ -26,10 +28,12 @@ TRUSTED = ["Coq 8.16.1 kernel (coqc); no axioms (Print Assumptions: closed under
            "report at the call (the snapshot cenv); source recovery of the lambda text (C03)"]
 ASSUME = ["the snapshot (closure cells, module globals, attribute lookups) is an input of the model",
           "capture_freezes: names holding classes/modules/enums (attribute folding) and captured helpers are outside the theorem (correspondence + oracle only)",
-          "lambdas with non-positional parameter kinds are outside the model (oracle only)"]
+          "lambdas with default values / other parameter kinds are [Other] nodes of the reference semantics (no value): covered by "
+          "capture_respects_scope, capture_defaults_in_enclosing_scope, the correspondence and the oracles, not by capture_freezes"]
 RULE = ("generated Python programs: values of 22 kinds x scope (module global, enclosing function at depth 1-3, class constant "
         "nested <=2, module attribute, enum with/without namespace) x use patterns (arithmetic, nested lambdas, comprehensions, "
-        "called lambdas, attribute/keyword names equal to the captured name, ast-field attribute names) x rebinding/deletion after "
+        "called lambdas, attribute/keyword names equal to the captured name, ast-field attribute names, every lambda parameter kind "
+        "and default values, starred arguments, helpers returning lambdas whose defaults capture variables) x rebinding/deletion after "
         "the call, plus seeded random lambda bodies; a case is non-trivial when python computes a value on some datum and that "
         "value was compared with the recorded lambda's; distinct by program text")
 
@@ -282,7 +286,7 @@ def second_call_cases():
     return out
 
 
-# FC7: parameter kinds other than plain positional bind names too (outside the model's domain: oracle only)
+# FC7: parameter kinds other than plain positional bind names too (decoded by the model's lam_view)
 NONPLAIN = [
     "lambda e: (lambda q, *x: q + len(x))(e.a, 1, 2) + x",
     "lambda e: (lambda *x: x)(e.a, e.b)",
@@ -302,11 +306,56 @@ NONPLAIN = [
 ]
 
 
+# F30: starred arguments next to captured variables (e.xs, e.rest hold one element, e.two two)
+STARRED = [
+    "lambda e: (lambda a: a + x)(*e.xs)",
+    "lambda e: (lambda a, b: a + b + x)(e.a, *e.rest)",
+    "lambda e: (lambda a, b: a + b + x)(*e.two)",
+    "lambda e: max(*e.two) + x",
+    "lambda e: max(*[x, e.a])",
+    "lambda e: (lambda a, b: a - b)(*[x, y])",
+    "lambda e: (lambda x: x + y)(*e.xs) + x",
+    "lambda e: (lambda q, r=x: q + r)(*e.xs)",
+    "lambda e: (lambda q, x=x: q + x)(*e.xs)",
+    "lambda e: (lambda q, x=x: q + x)(e.a, *e.rest) + x",
+    "lambda e: (lambda *x: len(x))(*e.two) + x",
+    "lambda e: sum(e.jets.Select(lambda j: (lambda a, b, c: a + b + c + x)(*j.sub)))",
+    "lambda e: [*e.two, x]",
+]
+# F31 / FC5 / FC8: a helper that returns (or keeps) a lambda whose default values mention the helper's parameter AND a
+# variable captured in the helper's own closure; the query's argument mentions the query's parameter
+DEFAULT_HELPERS = [
+    ("mk", ["k"], "lambda j, k=k, x=x: j + k + x"),
+    ("mks", ["k"], "lambda j, *, s=k + x: j * s"),
+    ("mkx", ["x"], "lambda j, x=x: j + x + y"),
+    ("hsel", ["s", "k"], "sum(s.Select(lambda j, k=k + x: j.pt + k))"),
+]
+DEFAULT_USES = [
+    ("mk", "lambda e: mk(e.off)"), ("mk", "lambda e: mk(e.off)(1)"), ("mk", "lambda e: mk(e.off)(1, k=x)"),
+    ("mk", "lambda e: e.jets.Select(lambda j: mk(j.pt))"), ("mk", "lambda x: mk(x.off)"),
+    ("mks", "lambda e: mks(e.off)"), ("mks", "lambda e: mks(e.off)(2)"), ("mks", "lambda e: mks(x)(e.a, s=e.off)"),
+    ("mkx", "lambda e: mkx(e.off)"), ("mkx", "lambda e: mkx(e.off)(x)"), ("mkx", "lambda e: mkx(x)(e.off)"),
+    ("hsel", "lambda e: hsel(e.jets, e.off)"), ("hsel", "lambda e: hsel(e.jets, x)"),
+    (None, "lambda e: (lambda k: lambda j, k=k, x=x: j + k + x)(e.off)"),
+    (None, "lambda e: (lambda k: lambda j, *, x=x + k: j + x)(e.off)(y)"),
+]
+
+
 def nonplain_cases():
     out = []
     for d, sc in ((1, "g"), (1, "l1"), (2, "l1")):
         for s in NONPLAIN:
             out.append(Case(s, [Var("x", sc, "x = 5", after="del x"), Var("y", sc, "y = 9")], d, {"FC7", "non-plain"}, group="nonplain"))
+        for s in STARRED:
+            out.append(Case(s, [Var("x", sc, "x = 5", after="del x"), Var("y", sc, "y = 9")], d, {"F30", "starred"}, group="nonplain"))
+        for h, s in DEFAULT_USES:
+            vs = [Var("x", sc, "x = 5", after="x = 'REBOUND'"), Var("y", sc, "y = 9", after="del y")]
+            for (name, params, body) in DEFAULT_HELPERS:
+                if name == h:
+                    # the helper lives in the same scope as the variables it captures (FC5: frozen with its own snapshot)
+                    vs.append(Var(name, sc, "def %s(%s):\n    return %s" % (name, ", ".join(params), body), "%s = 'REBOUND'" % name,
+                                  helper=(params, body), byname=True))
+            out.append(Case(s, vs, d, {"F31", "defaults-of-staying-lambda"}, group="nonplain"))
     return out
 
 
